@@ -269,6 +269,9 @@ def run_update(mutate=None, screening=False, dynamic=False, prefixes=("C",)):
             def set_link_exponents(self_, A):
                 LOG.append(("set_link", A))
                 G["link"] = A
+
+            # class invariant of MeshOperators (C10.*.link_exponents_recorded): the attribute is the potential of the last refresh
+            link_exponents = property(lambda self_: G["link"])
         ops = Ops()
         s.operators = ops
         A_ind_in = SymArray.input("A_induced_in", (E, 2))
